@@ -300,6 +300,63 @@ def run_harness(cfg, st, tier, seed, rundir, extra=None):
         outs.append((h, rc, o, dt, sub))
     return outs
 
+def explore(cfg, st, tier, seed, rundir, log):
+    """steps 3+4: run the harness(es) on the real code, evaluate the cases in Coq."""
+    r = {"meta": {"evaluations": 0, "distinct_nontrivial": 0, "samples": [], "histogram": {}, "traces": 0, "rules": [], "extra": {}},
+         "verdicts": [], "impl_viol": [], "errors": [], "descrs": {}, "terms": {}, "seed": seed, "tier": tier}
+    meta_all = r["meta"]
+    outs = run_harness(cfg, st, tier, seed, rundir)
+    for h, rc, o, dt, sub in outs:
+        log.append("harness %s tier=%s seed=%d rc=%d %.1fs" % (h, tier, seed, rc, dt))
+        if rc != 0 or not os.path.exists(os.path.join(sub, "meta.json")):
+            r["errors"].append("harness %s exited %d:\n%s" % (h, rc, o[-4000:]))
+            continue
+        m = json.load(open(os.path.join(sub, "meta.json")))
+        meta_all["evaluations"] += m["evaluations"]
+        meta_all["distinct_nontrivial"] += m["distinct_nontrivial"]
+        meta_all["samples"] += (m.get("samples") or [])[:3]
+        meta_all["traces"] += m.get("traces_validated_against_impl", 0)
+        if m.get("rule"):
+            meta_all["rules"].append(m.get("rule", ""))
+        for k, v in (m.get("histogram") or {}).items():
+            meta_all["histogram"][h + ":" + k if len(outs) > 1 else k] = v
+        meta_all["extra"].update(m.get("extra") or {})
+        for v in m.get("impl_violations") or []:
+            r["impl_viol"].append((h, v))
+        try:
+            r["descrs"][h] = json.load(open(os.path.join(sub, "descr.json")))
+            r["terms"][h] = json.load(open(os.path.join(sub, "terms.json")))
+        except FileNotFoundError:
+            r["descrs"][h], r["terms"][h] = {}, {}
+        t1 = time.time()
+        res, errs = eval_cases(sub)
+        log.append("coq evaluation of %s cases: %.1fs" % (h, time.time() - t1))
+        for f, eo in errs:
+            r["errors"].append("coqc %s failed:\n%s" % (os.path.relpath(f, VERIF), eo))
+        r["verdicts"] += [(h, i, c) for i, c in res]
+    return r
+
+def triage(cfg, r):
+    mismatches, found = [], []
+    for h, i, c in r["verdicts"]:
+        cl = classify(cfg, c)
+        if cl["kind"] == "mismatch":
+            mismatches.append((h, i, c, cl))
+        else:
+            found.append((h, i, cl.get("clause", "?"), cl.get("signature", "code%d" % c), cl.get("what", "")))
+    for h, v in r["impl_viol"]:
+        found.append((h, v["index"], v["clause"], v["signature"], v.get("detail", "")))
+    return mismatches, found
+
+def run_coqchk(cfg, log):
+    """thorough tier: independent re-check of the property's compiled closure; axioms listed."""
+    mod = "HV." + cfg["props"].replace(".v", "").replace("/", ".")
+    rc, o, dt = sh(["coqchk", "-silent", "-o", "-Q", "theories", "HV", mod], cwd=COQ, timeout=3600)
+    log.append("coqchk %s rc=%d %.0fs" % (mod, rc, dt))
+    ax = re.search(r"\* Axioms:(.*?)(?:\n\s*\n|\* |\Z)", o, re.S)
+    axioms = [l.strip() for l in (ax.group(1).splitlines() if ax else []) if l.strip() and "<none>" not in l]
+    return rc, axioms, o[-1500:]
+
 def do_check(pid, tier, seed, replay=None):
     t0 = time.time()
     cfg = load_prop(pid)
@@ -313,66 +370,58 @@ def do_check(pid, tier, seed, replay=None):
     bad = forbidden_scan()
     proof_broken = (not st["proof_ok"]) or (not pr["ok"]) or bool(bad)
     rundir = os.path.join(CACHE, "run", "%s-%s" % (pid, tier))
-    meta_all = {"evaluations": 0, "distinct_nontrivial": 0, "samples": [], "histogram": {}, "traces": 0, "rules": [], "extra": {}}
-    verdicts = []     # (harness, index, code)
-    impl_viol = []    # Go-side oracle violations
     harness_err = []
-    descrs, terms = {}, {}
+    searched = 0
     if st["harness_ok"] and st["model_ok"]:
-        outs = run_harness(cfg, st, tier, seed, rundir)
-        for h, rc, o, dt, sub in outs:
-            log.append("harness %s rc=%d %.1fs" % (h, rc, dt))
-            if rc != 0 or not os.path.exists(os.path.join(sub, "meta.json")):
-                harness_err.append("harness %s exited %d:\n%s" % (h, rc, o[-4000:]))
-                continue
-            m = json.load(open(os.path.join(sub, "meta.json")))
-            meta_all["evaluations"] += m["evaluations"]
-            meta_all["distinct_nontrivial"] += m["distinct_nontrivial"]
-            meta_all["samples"] += (m.get("samples") or [])[:3]
-            meta_all["traces"] += m.get("traces_validated_against_impl", 0)
-            meta_all["rules"].append(m.get("rule", ""))
-            for k, v in (m.get("histogram") or {}).items():
-                meta_all["histogram"][h + ":" + k if len(outs) > 1 else k] = v
-            meta_all["extra"].update(m.get("extra") or {})
-            for v in m.get("impl_violations") or []:
-                impl_viol.append((h, v))
-            try:
-                descrs[h] = json.load(open(os.path.join(sub, "descr.json")))
-                terms[h] = json.load(open(os.path.join(sub, "terms.json")))
-            except FileNotFoundError:
-                descrs[h], terms[h] = {}, {}
-            res, errs = eval_cases(sub)
-            for f, eo in errs:
-                harness_err.append("coqc %s failed:\n%s" % (os.path.relpath(f, VERIF), eo))
-            verdicts += [(h, i, c) for i, c in res]
+        r = explore(cfg, st, tier, seed, rundir, log)
     else:
-        harness_err += st["msgs"]
+        r = {"meta": {"evaluations": 0, "distinct_nontrivial": 0, "samples": [], "histogram": {}, "traces": 0, "rules": [], "extra": {}},
+             "verdicts": [], "impl_viol": [], "errors": list(st["msgs"]), "descrs": {}, "terms": {}, "seed": seed, "tier": tier}
+    meta_all, descrs, terms = r["meta"], r["descrs"], r["terms"]
+    harness_err += r["errors"]
+    mismatches, found = triage(cfg, r)
+    src = {"seed": seed, "tier": tier}
 
-    # ---- triage
-    mismatches, found = [], []
-    for h, i, c in verdicts:
-        cl = classify(cfg, c)
-        if cl["kind"] == "mismatch":
-            mismatches.append((h, i, c, cl))
-        else:
-            found.append((h, i, cl.get("clause", "?"), cl.get("signature", "code%d" % c), cl.get("what", "")))
-    for h, v in impl_viol:
-        found.append((h, v["index"], v["clause"], v["signature"], v.get("detail", "")))
+    def split_known(found):
+        new = {}
+        known = []
+        for h, i, clause, sig, what in found:
+            if sig in open_sigs:
+                known.append(sig)
+            else:
+                new.setdefault(sig, []).append((h, i, clause, what))
+        return new, known
+    new_viol, known_hit = split_known(found)
+
+    # ---- a broken obligation (proof or correspondence) with no failing input yet: search for one
+    if (mismatches or proof_broken) and not new_viol and st["harness_ok"] and st["model_ok"] and tier == "quick" \
+            and os.environ.get("VERIF_NO_SEARCH") != "1":
+        budget = cfg.get("search_budget_s", 420)
+        ts = time.time()
+        for k in range(1, 4):
+            if time.time() - ts > budget:
+                break
+            s2 = seed + 7919 * k
+            r2 = explore(cfg, st, "quick" if k < 3 else "thorough", s2, os.path.join(CACHE, "run", "%s-search" % pid), log)
+            searched += r2["meta"]["evaluations"]
+            m2, f2 = triage(cfg, r2)
+            nv2, kh2 = split_known(f2)
+            known_hit += kh2
+            if nv2:
+                new_viol, descrs, terms = nv2, r2["descrs"], r2["terms"]
+                src = {"seed": s2, "tier": r2["tier"]}
+                break
 
     reported_known = set()
-    new_viol = {}
-    for h, i, clause, sig, what in found:
-        if sig in open_sigs:
-            if sig not in reported_known:
-                reported_known.add(sig)
-                lines.append("KNOWN-FINDING: property=%s %s (%s)" % (pid, open_sigs[sig]["what_fails"], sig))
-        else:
-            new_viol.setdefault(sig, []).append((h, i, clause, what))
+    for sig in known_hit:
+        if sig not in reported_known:
+            reported_known.add(sig)
+            lines.append("KNOWN-FINDING: property=%s %s (%s)" % (pid, open_sigs[sig]["what_fails"], sig))
     for sig, lst in new_viol.items():
         h, i, clause, what = lst[0]
-        rp = write_replay(pid, "%s-seed%d-%s-%d" % (sig, seed, tier, i), {
+        rp = write_replay(pid, "%s-seed%d-%s-%d" % (sig, src["seed"], src["tier"], i), {
             "property": pid, "kind": "property-violation", "clause": clause, "signature": sig, "what": what,
-            "seed": seed, "tier": tier, "harness": h, "index": i, "count_in_run": len(lst),
+            "seed": src["seed"], "tier": src["tier"], "harness": h, "index": i, "count_in_run": len(lst),
             "case": descrs.get(h, {}).get(str(i)), "coq_term": terms.get(h, {}).get(str(i)),
             "replay_cmd": "./check %s --replay <this file>" % pid})
         lines.append("VIOLATION property=%s replay=%s" % (pid, os.path.relpath(rp, VERIF)))
@@ -385,15 +434,15 @@ def do_check(pid, tier, seed, replay=None):
             "obligation": "implementation observations accepted by %s" % cfg.get("check_module", cfg.get("check_modules")),
             "what": cl.get("what", ""), "code": c, "seed": seed, "tier": tier, "harness": h, "index": i,
             "mismatching_cases": len(mismatches),
-            "case": descrs.get(h, {}).get(str(i)), "coq_term": terms.get(h, {}).get(str(i)),
-            "note": "model and implementation disagree on this case; the property oracle found no failing input in this run (%d cases)" % meta_all["evaluations"]})
+            "case": r["descrs"].get(h, {}).get(str(i)), "coq_term": r["terms"].get(h, {}).get(str(i)),
+            "note": "model and implementation disagree on this case; the property oracle found no failing input in %d cases of this run plus %d cases of the follow-up search" % (meta_all["evaluations"], searched)})
         lines.append("VIOLATION property=%s replay=%s no-failing-input-found" % (pid, os.path.relpath(rp, VERIF)))
         violations += 1
     if proof_broken and not new_viol and not mismatches:
         rp = write_replay(pid, "proof-broken-%s" % tier, {
             "property": pid, "kind": "proof-obligation-broken", "broken_at": st.get("broken_at"),
             "theorems": pr["names"], "forbidden": bad, "messages": st["msgs"], "coqc": pr["out"],
-            "note": "no failing input found by the correspondence run (%d cases)" % meta_all["evaluations"]})
+            "note": "no failing input found in %d cases of this run plus %d cases of the follow-up search" % (meta_all["evaluations"], searched)})
         lines.append("VIOLATION property=%s replay=%s no-failing-input-found" % (pid, os.path.relpath(rp, VERIF)))
         violations += 1
     if harness_err and not violations:
@@ -401,9 +450,21 @@ def do_check(pid, tier, seed, replay=None):
         lines.append("VIOLATION property=%s replay=%s no-failing-input-found" % (pid, os.path.relpath(rp, VERIF)))
         violations += 1
 
+    # ---- thorough: independent checker
+    chk_axioms = None
+    if tier == "thorough" and not proof_broken and os.environ.get("VERIF_NO_COQCHK") != "1":
+        with Lock("coqchk"):
+            rc, chk_axioms, tail = run_coqchk(cfg, log)
+        if rc != 0:
+            rp = write_replay(pid, "coqchk-failed", {"property": pid, "kind": "proof-obligation-broken", "coqchk": tail})
+            lines.append("VIOLATION property=%s replay=%s no-failing-input-found" % (pid, os.path.relpath(rp, VERIF)))
+            violations += 1
+
     # ---- evidence
     tb = list(cfg.get("trusted_base", []))
     tb.append("Print Assumptions: " + ("Closed under the global context for all %d theorems" % pr["closed"] if not pr["axioms"] else "axioms used: " + ", ".join(pr["axioms"])))
+    if chk_axioms is not None:
+        tb.append("coqchk -o over the property's closure: axioms = " + (", ".join(chk_axioms) if chk_axioms else "none"))
     ev = {
         "property_id": pid, "tier": tier, "seed": seed, "level": cfg.get("level", "proof"),
         "coverage": {
@@ -416,7 +477,8 @@ def do_check(pid, tier, seed, replay=None):
             "traces_validated_against_impl": meta_all["traces"],
             "histogram": meta_all["histogram"], "extra": meta_all["extra"],
             "model_mismatches": len(mismatches), "known_findings_hit": sorted(reported_known),
-            "exhaustive": False,
+            "search_cases_after_broken_obligation": searched,
+            "exhaustive": bool(meta_all["extra"].get("exhaustive_complete", False)),
         },
         "assumptions": cfg.get("assumptions", []),
         "wall_s": round(time.time() - t0, 1), "violations": violations,
